@@ -84,6 +84,10 @@ def run_impl(cls, stamp0, timeout, redo, tx, ops):
                 ex.process()
             elif op[0] == "send":
                 ex.send(op[1])
+            elif op[0] == "transmit":
+                ex.transmit(op[1])
+            elif op[0] == "message":
+                ex.message(op[1])
             elif op[0] == "start":
                 ex.start(op[1])
             elif op[0] == "finish":
@@ -160,6 +164,7 @@ def lifecycle_check(cls, stamp0, timeout, redo, items):
     s = Fraction(stamp0)
     started = ref_done = ref_failed = False
     last_start = last_redo = s
+    latest = None
     for i, it in enumerate(items):
         try:
             if it == "S":
@@ -167,6 +172,15 @@ def lifecycle_check(cls, stamp0, timeout, redo, items):
                 started, ref_failed = True, False
                 ref_done = (cls == "Exchangent")     # Exchangent.start responds and finishes at once
                 last_start = last_redo = s
+                latest = 7
+            elif isinstance(it, tuple):
+                # follow-up message through one of the sending entry points: goes on the wire now and
+                # becomes the exchange's latest message (what a redo must retransmit)
+                n0 = len(stack.sent)
+                getattr(ex, {"X": "send", "T": "transmit", "M": "message"}[it[0]])(it[1])
+                latest = it[1]
+                if list(stack.sent[n0:]) != [it[1]]:
+                    return "item %d %r: put %r on the wire, expected [%r]" % (i, it, stack.sent[n0:], it[1])
             else:
                 stack.stamper.advance(it)
                 s += Fraction(it)
@@ -179,10 +193,10 @@ def lifecycle_check(cls, stamp0, timeout, redo, items):
                     if T > 0 and s >= last_start + T:
                         ref_failed = ref_done = True
                     elif R > 0 and s >= last_redo + R:
-                        want, last_redo = [7], s
+                        want, last_redo = [latest], s
                 if got != want:
-                    return ("item %d: at stamp %s retransmitted %r, expected %r (last (re)transmission %s, redo %s)"
-                            % (i, s, got, want, last_redo, R))
+                    return ("item %d: at stamp %s retransmitted %r, expected %r = the most recently transmitted "
+                            "message (redo timer last restarted at %s, redo %s)" % (i, s, got, want, last_redo, R))
         except Exception as e:
             return "%s: %s at item %d %r" % (type(e).__name__, e, i, it)
         if started and bool(ex.failed) != ref_failed:
@@ -205,6 +219,10 @@ def c_op(op):
         return "Proc"
     if op[0] == "send":
         return "Send %s" % copt(op[1], cz)
+    if op[0] == "transmit":
+        return "Transmit %s" % copt(op[1], cz)
+    if op[0] == "message":
+        return "Message %s" % copt(op[1], cz)
     if op[0] == "start":
         return "Start %s" % copt(op[1], cz)
     return "Finish"
@@ -278,14 +296,20 @@ def histories(ctx):
         for i in range(5):
             mid += [("adv", 0.5), ("proc",)]
         yield ("Exchanger", 0.0, t, r, None, [("start", 7)] + mid + [("start", 8)] + tail, "lifecycle")
+        for ep in ("transmit", "send", "message"):
+            yield ("Exchanger", 0.0, t, r, None,
+                   [("start", 7), ("adv", 0.125), (ep, 21)] + tail[:8] + [(ep, 22)] + tail[:8], "follow-up")
     # 2. small scope exhaustive op sequences
-    alpha = [("adv", 0.5), ("adv", 1.0), ("proc",), ("send", 3), ("send", None), ("start", 4), ("start", None), ("finish",)]
+    alpha = [("adv", 0.5), ("adv", 1.0), ("proc",), ("send", 3), ("send", None), ("start", 4), ("start", None), ("finish",),
+             ("transmit", 5), ("transmit", None), ("message", 6)]
     L = ctx.n(3, 4)
     for t, r in [(1.0, 0.5), (0.0, 0.5), (None, None), (1.0, 0.0)]:
         for n in range(0, L + 1):
             for ops in itertools.product(alpha, repeat=n):
                 if n == 4 and ctx.rng.random() > 0.25:
                     continue
+                if n == 3 and not ctx.thorough and ctx.rng.random() > 0.4:
+                    continue      # quick: all sequences of length <= 2, a seeded 40% of length 3
                 yield ("Exchanger", 0.0, t, r, None, list(ops), "small")
     # 3. random histories
     for _ in range(ctx.n(300, 4000)):
@@ -301,7 +325,7 @@ def histories(ctx):
             elif u < 0.8:
                 ops.append(("proc",))
             elif u < 0.88:
-                ops.append(("send", ctx.rng.choice([None, 3, 4, 5])))
+                ops.append((ctx.rng.choice(["send", "transmit", "message"]), ctx.rng.choice([None, 3, 4, 5])))
             elif u < 0.95 and cls == "Exchanger":
                 ops.append(("start", ctx.rng.choice([None, 8, 9])))
             else:
@@ -357,10 +381,20 @@ def lifecycles(ctx):
             yield (cls, 0.0, t, r, [3.0, "S", 0.125, 0.25, 0.5, 1.0, 1.0])         # long after creation
             yield (cls, 0.0, t, r, ["S"] + [0.5] * 5 + ["S"] + [0.25] * 10)        # start again (after failure)
             yield (cls, 0.0, t, r, ["S", 0.25, "S", 0.25, 0.25, "S"] + [0.5] * 5)
+            if cls == "Exchanger":   # follow-up messages through every entry point between redo expiries
+                for ep in ("T", "X", "M"):
+                    yield (cls, 0.0, t, r, ["S", 0.125, (ep, 21), 0.25, 0.25, 0.25, 0.25, (ep, 22), 0.5, 0.5, 0.5])
+                yield (cls, 0.0, t, r, ["S", 0.125, ("T", 31), 0.5, ("X", 32), 0.5, ("M", 33), 0.5, ("T", 34), 0.5])
     for _ in range(300):
         items = []
         for _ in range(ctx.rng.randint(0, 16)):
-            items.append("S" if ctx.rng.random() < 0.15 else dy(ctx.rng, 0, 1.25))
+            u = ctx.rng.random()
+            if u < 0.15:
+                items.append("S")
+            elif u < 0.3 and "S" in items:
+                items.append((ctx.rng.choice("TXM"), ctx.rng.randint(20, 29)))
+            else:
+                items.append(dy(ctx.rng, 0, 1.25))
         if ctx.rng.random() < 0.5:
             items.insert(0, "S")
         yield (ctx.rng.choice(["Exchanger", "Exchanger", "Exchangent"]), dy(ctx.rng, 0, 3),
@@ -447,7 +481,8 @@ def run(ctx):
             if why and (best is None or len(items) < len(best["lifecycle"])):
                 best = {"class": cls, "stamp0": s0, "timeout": t, "redo_timeout": r, "lifecycle": items,
                         "redo_parameter_name": redo_param(), "why": why,
-                        "legend": "number = advance the stamp, then process() if started and not done; 'S' = start(7)",
+                        "legend": "number = advance the stamp, then process() if started and not done; 'S' = start(7); "
+                                  "('T'|'X'|'M', m) = transmit(m) | send(m) | message(m)",
                         "contradicts": "C38.Props ctor_total / lifetime_fails_iff_timeout_first / "
                                        "lifetime_redo_once_per_interval / lifetime_is_schedule_walk",
                         "key": "exchange-" + ("ctor" if "creating" in why else "schedule")}
